@@ -609,10 +609,10 @@ def main():
                 "bounded. distinct = distinct (state, stream, offset); every case is non-trivial")
     if recorded:
         replay_cases(res, recorded)
-    inmemory_part(res, rng.fork("mem"), drv, big)
-    witness_send_failure(res, drv)
-    witness_stale_reply(res, drv)
-    tcp_part(res, rng.fork("tcp"), drv, big)
+    M.guarded(res, "in-memory", lambda: inmemory_part(res, rng.fork("mem"), drv, big))
+    M.guarded(res, "witness send failure", lambda: witness_send_failure(res, drv))
+    M.guarded(res, "witness stale reply", lambda: witness_stale_reply(res, drv))
+    M.guarded(res, "tcp", lambda: tcp_part(res, rng.fork("tcp"), drv, big))
     res.notes.append("a hang is 'no completion within the stated bound' (3 s close sequence, 4-8 s disable); fairness of the OS scheduler is assumed")
     res.dump(a.out)
     sys.stdout.flush()
